@@ -3,6 +3,8 @@ from checks import window_common as W
 
 META = {
     "technique": "Coq proof (run of the sliding window state machines = closed-form emission schedule, by induction over the stream) + model/impl differential on the window API and the Engine",
+    "level_text": "Theorems C13_* in coq/theories/Window/Props.v: on every in-order stream the time-sliding model emits exactly per time_schedule (first arrival or >= slide after the previous emitting arrival; contents = arrivals within size of the trigger, in order), on every stream the count-sliding model emits exactly per count_schedule (window full and >= slide arrivals since the previous emission; contents = last size arrivals), partitioned forms = the plain schedule of each key's sub-stream; model tied to window.rs / engine/types.rs by comparing every emission verbatim on the window API and through Engine programs",
+    "level_note": "'Within the window size' read inclusively (t - size <= ts <= t). For slide > size the first count emission is at arrival number slide. Emissions triggered by advance_watermark and out-of-order streams are outside the property's quantifier: compared model vs code, not judged, no theorem. Engine path observes windows through count/sum/first/last of x = 2^id. Trusted: Coq kernel + vm_compute, hand-written model (differential tie), harness, Python schedule oracle",
     "design_ref": "DESIGN.md §7 C13, §12 Window",
 }
 
